@@ -10,7 +10,7 @@ Type descriptors ("td", plain tuples, hashable):
     ("arrp", inst, lt, e)                Array(L, E) with L a type class (inst=0) or an instance L() (inst=1)
     ("arrall", e)                        Array(None, E)
     ("struct", ((name|None, t), ...))    Struct(...): name None = the class itself / an unnamed instance
-    ("fss", cap, LENNAME)                FixedSizeString(cap, LENNAME)
+    ("fss", size, LENNAME, capacity)     FixedSizeString(size, LENNAME, capacity_=capacity); capacity None = default (= size)
     ("stag", ((name, off, t), ...), ((bitname, off, bit), ...), (private, ...), size)   StructTag(...)
 `ty_tokens(td)` is the token form for bin/modelrun_codec, `ty_build(td)` the real pycomm3 type.
 
@@ -20,7 +20,7 @@ token form, `canon(v)` the canonical comparable form:
     ("N",) ("B",0/1) ("I",n) ("F",bits64 with every NaN = 0x7ff8000000000000) ("S",(code points))
     ("Y",hex) ("L",(...)) ("T",(...)) ("D",((key,val),...)) in insertion order, key None or ("S",..)
     ("C",name)
-Outcomes:  enc: ("ok",kind,hex) | ("err",code) | ("hang",)
+Outcomes:  enc: ("ok",kind,hex) (kind 1 = a str was returned: code points instead of hex) | ("err",code) | ("hang",)
            dec: ("ok",canon,pos) | ("err",code) | ("empty",pos) | ("hang",)
 with code as Base/Res.v exn_code (1 DataError, 2 BufferEmptyError, 10 TypeError, 11 ValueError,
 12 KeyError, 13 IndexError, 14 struct.error, 15 OverflowError, 16 AttributeError, 17 StopIteration,
@@ -89,7 +89,7 @@ def ty_tokens(td):
             out += [_key_tok(name)] + ty_tokens(t)
         return out
     if k == "fss":
-        return ["fss", str(td[1]), td[2]]
+        return ["fss", str(td[1]), td[2], str(td[1] if td[3] is None else td[3])]
     if k == "stag":
         out = ["stag", str(len(td[1]))]
         for name, off, t in td[1]:
@@ -133,7 +133,7 @@ def ty_build(td):
     elif k == "struct":
         T = dt.Struct(*[member_obj(t, name) for name, t in td[1]])
     elif k == "fss":
-        T = ct.FixedSizeString(td[1], getattr(dt, td[2]))
+        T = ct.FixedSizeString(td[1], getattr(dt, td[2])) if td[3] is None else ct.FixedSizeString(td[1], getattr(dt, td[2]), td[3])
     elif k == "stag":
         T = ct.StructTag(*[(member_obj(t, name), off) for name, off, t in td[1]],
                          bit_members={n: (o, b) for n, o, b in td[2]}, private_members=set(td[3]), struct_size=td[4])
@@ -347,7 +347,7 @@ def run_one(case, budget=0.5):
             if isinstance(r, (bytes, bytearray)):
                 return ("ok", 0, bytes(r).hex())
             if isinstance(r, str):
-                return ("ok", 1, bytes(ord(c) & 255 for c in r).hex()) if all(ord(c) < 256 for c in r) else ("ok", 1, "wide")
+                return ("ok", 1, tuple(ord(c) for c in r))
             if isinstance(r, (list, tuple)) and all(isinstance(x, int) and 0 <= x < 256 for x in r):
                 return ("ok", 2 if isinstance(r, list) else 3, bytes(int(x) for x in r).hex())
             return ("ok", 9, repr(r)[:60])
@@ -450,7 +450,7 @@ def model_outcome(case, line):
     if head == "fuel":
         return ("hang",)
     if case[0] in ("enc", "enca"):
-        return ("ok", ts[1], ts[2].hex())
+        return ("ok", ts[1], tuple(ord(c) for c in ts[2]) if ts[1] == 1 else ts[2].hex())
     if head == "empty":
         return ("empty", len(case[2]) - len(ts[1]))
     v, j = parse_val_tokens(ts, 1)
@@ -523,7 +523,9 @@ def gen_type(rng, depth=4, ctx="top", wild=False):
         if r < 0.84:
             return ("nbytes", rng.choice([1, 2, 3, 4, 6, 8, 16] + ([-1, 0] if wild or ctx == "last" else [])))
         if r < 0.92:
-            return ("fss", rng.choice([1, 2, 4, 8, 16, 82] + ([0] if wild else [])), rng.choice(["UDINT", "UINT", "USINT", "DINT"]))
+            size = rng.choice([1, 2, 4, 8, 16, 82] + ([0] if wild else []))
+            cap = None if rng.random() < 0.5 else rng.choice([size, max(0, size - 1), max(0, size - 2)] + ([size + 1, size + 3, 0] if wild else []))
+            return ("fss", size, rng.choice(["UDINT", "UINT", "USINT", "DINT"]), cap)
         return ("named", rng.choice(NAMED))
     r = rng.random()
     if r < 0.30:
@@ -594,7 +596,8 @@ def gen_fixed_type(rng, depth):
                 t = ("elem", rng.choice(["BOOL", "SINT", "INT", "DINT", "LINT", "USINT", "UINT", "UDINT", "ULINT", "REAL", "LREAL",
                                          "BYTE", "WORD", "DWORD", "LWORD", "TIME", "DATE"]))
             elif r < 0.85:
-                t = ("fss", rng.choice([1, 2, 4, 8, 12]), "UDINT")
+                sz = rng.choice([1, 2, 4, 8, 12])
+                t = ("fss", sz, "UDINT", rng.choice([None, sz, max(1, sz - 2)]))
             else:
                 t = ("named", rng.choice(["IPAddress", "Revision"]))
         else:
@@ -782,8 +785,8 @@ def gen_value(rng, td, big=False):
             return bytes(rng.randrange(256) for _ in range(rng.randrange(1, 20)))
         return bytes(rng.randrange(256) for _ in range(n if rng.random() < 0.9 else max(0, n + rng.choice([-1, 1, 3]))))
     if k == "fss":
-        cap = td[1]
-        ln = rng.randrange(0, cap + 1) if rng.random() < 0.92 else cap + rng.randrange(1, 4)
+        cap = td[1] if td[3] is None else td[3]
+        ln = rng.randrange(0, cap + 1) if rng.random() < 0.85 else cap + rng.randrange(1, 4)
         return gen_text(rng, ln, "latin1")
     if k == "arr":
         n, e = td[1], td[2]
